@@ -21,8 +21,11 @@ import networkx as nx
 from flowpaths.utils import graphutils as gu
 from crosshair.tracers import NoTracing
 
-PAIRS = [("s", "a"), ("a", "b"), ("b", "a"), ("a", "a"), ("b", "t"), ("a", "t"), ("s", "b")]
-SUBPATHS = [["s", "a", "b"], ["a", "b", "t"], ["s", "a"], ["a", "b", "a"]]
+# node names are multi-character and chosen so that different node sequences concatenate to the same string
+# ("1"+"12" == "11"+"2"): s = "1", a = "11", b = "2", t = "12"
+S_, A_, B_, T_ = "1", "11", "2", "12"
+PAIRS = [(S_, A_), (A_, B_), (B_, A_), (A_, A_), (B_, T_), (A_, T_), (S_, B_), (S_, T_)]
+SUBPATHS = [[S_, A_, B_], [A_, B_, T_], [S_, A_], [A_, B_, A_], [S_, T_], [A_, B_]]
 
 def _conc(x, lo, hi):
     for j in range(lo, hi + 1):
@@ -35,8 +38,8 @@ def _edges(mask, ws):
     for i, p in enumerate(PAIRS):
         if i == 0 or (mask >> i) & 1:
             es.append((p[0], p[1], ws[i % len(ws)]))
-    if not any(v == "t" for (_u, v, _w) in es):
-        es.append(("a", "t", ws[0]))
+    if not any(v == T_ for (_u, v, _w) in es):
+        es.append((A_, T_, ws[0]))
     return es
 
 def _block(name, es, nheaders, nblank, subpaths, declared_n):
@@ -95,21 +98,28 @@ def _usable(es, subpaths):
 def wellformed_edges(mask: int, w0: int) -> bool:
     """
     pre: 0 <= mask < 128
-    pre: 0 <= w0 <= 2
+    pre: 0 <= w0 <= 1
     post: _
     """
-    return _wellformed(_conc(mask, 0, 127), _conc(w0, 0, 2), 7, 1, 0, 0, -1, 1)
+    return _wellformed(_conc(mask, 0, 127), 2 * _conc(w0, 0, 1), 7, 1, 0, 0, -1, 1)
 
-def wellformed_layout(nheaders: int, nblank: int, sp1: int, dup: bool, blocks: int, mask: int) -> bool:
+def wellformed_edges_hi(mask: int, w0: int) -> bool:
+    """
+    pre: 128 <= mask < 256
+    pre: 0 <= w0 <= 1
+    post: _
+    """
+    return _wellformed(_conc(mask, 128, 255), 2 * _conc(w0, 0, 1), 7, 1, 0, 0, -1, 1)
+
+def wellformed_layout(nheaders: int, nblank: int, sp1: int, sp2: int, blocks: int, mask: int) -> bool:
     """
     pre: 1 <= nheaders <= 2 and 0 <= nblank <= 1
-    pre: -1 <= sp1 <= 3
+    pre: -1 <= sp1 <= 5 and -1 <= sp2 <= 5
     pre: 1 <= blocks <= 2
-    pre: mask == 3 or mask == 118
+    pre: mask == 131 or mask == 246
     post: _
     """
-    s1 = _conc(sp1, -1, 3)
-    return _wellformed(118 if mask == 118 else 3, 1, 2, _conc(nheaders, 1, 2), _conc(nblank, 0, 1), s1, s1 if dup else -1, _conc(blocks, 1, 2))
+    return _wellformed(246 if mask == 246 else 131, 1, 2, _conc(nheaders, 1, 2), _conc(nblank, 0, 1), _conc(sp1, -1, 5), _conc(sp2, -1, 5), _conc(blocks, 1, 2))
 
 def _wellformed(m, a, b, nh, nb, s1, s2, bl):
     with NoTracing():
@@ -141,12 +151,12 @@ def _wellformed(m, a, b, nh, nb, s1, s2, bl):
 
 def malformed(mask: int, kind: int, which: int) -> bool:
     """
-    pre: 0 <= mask < 128
-    pre: 0 <= kind <= 5
+    pre: 0 <= mask < 64
+    pre: 0 <= kind <= 8
     pre: 0 <= which <= 2
     post: _
     """
-    m, kd, wh = _conc(mask, 0, 127), _conc(kind, 0, 5), _conc(which, 0, 2)
+    m, kd, wh = _conc(mask, 0, 63), _conc(kind, 0, 8), _conc(which, 0, 2)
     with NoTracing():
         es = _edges(m, [1, 2, 3])
         nodes = {{x for (u, v, _w) in es for x in (u, v)}}
@@ -163,9 +173,15 @@ def malformed(mask: int, kind: int, which: int) -> bool:
         elif kd == 3:
             lines[1] = "five\\n"                                   # non-numeric vertex count
         elif kd == 4:
-            lines.insert(1, "#S s zz a\\n")                        # constraint edge missing from the graph
-        else:
+            lines.insert(1, "#S 1 zz 11\\n")                       # constraint edge missing from the graph
+        elif kd == 5:
             lines[tgt] = u + "\\n"                                 # 1 token
+        elif kd == 6:
+            lines[1] = str(len(nodes)) + " vertices\\n"            # trailing text on the vertex-count line
+        elif kd == 7:
+            del lines[1]                                           # vertex-count line missing: an edge line is found instead
+        else:
+            lines[1] = "4.0\\n"                                    # vertex count that is not an integer literal
         try:
             gu.read_graph(lines)
         except ValueError:
@@ -210,12 +226,12 @@ def symbolic_edge_line(line: str) -> bool:
             return G.has_edge(toks[0], toks[1]) and G[toks[0]][toks[1]]["flow"] == float(toks[2])
         return set(G.edges()) == {{("s", "t")}}
 
-wellformed_edges(3, 1); wellformed_layout(1, 0, -1, False, 1, 3); malformed(3, 0, 0); symbolic_edge_line("a b 1")
+wellformed_edges(3, 1); wellformed_layout(1, 0, -1, -1, 1, 131); malformed(3, 0, 0); symbolic_edge_line("a b 1")
 '''
 
 
 def gen_tasks(tier, seed):
-    tasks = [{"fn": "wellformed_edges"}, {"fn": "wellformed_layout"}, {"fn": "malformed"}, {"fn": "symbolic_edge_line"}]
+    tasks = [{"fn": "wellformed_edges"}, {"fn": "wellformed_edges_hi"}, {"fn": "wellformed_layout"}, {"fn": "malformed"}, {"fn": "symbolic_edge_line"}]
     for i, t in enumerate(tasks):
         t["tid"] = i
     return tasks
@@ -231,9 +247,10 @@ def run_task(task):
     res["queries"] += 1
     res["evaluations"] = 1
     res["nontrivial"] += 1
-    what = {"wellformed_edges": "symbolic edge-subset bitmask (7 candidate edges incl. self loop and 2-cycle) and a weight 0..2",
-            "wellformed_layout": "symbolic header count, blank-line count, '#S' selector, duplicate '#S' line, number of blocks (1-2, read through read_graphs), on two edge sets",
-            "malformed": "symbolic edge subset, corruption kind 0..5, corrupted line index", "symbolic_edge_line": "one fully symbolic edge line of <= 5 characters"}[task["fn"]]
+    what = {"wellformed_edges_hi": "as wellformed_edges, upper half of the edge-subset bitmasks (those containing the direct edge 1->12)",
+            "wellformed_edges": "symbolic edge-subset bitmask (8 candidate edges incl. self loop and 2-cycle, multi-character node names) and a weight in {0, 2}",
+            "wellformed_layout": "symbolic header count, blank-line count, two independent '#S' selectors (duplicates and sequences whose concatenation collides), number of blocks (1-2, read through read_graphs), on two edge sets",
+            "malformed": "symbolic edge subset, corruption kind 0..8 (token counts, non-numeric weight / count, count with trailing text, missing count line, absent constraint edge), corrupted line index", "symbolic_edge_line": "one fully symbolic edge line of <= 5 characters"}[task["fn"]]
     res["samples"].append({"harness": task["fn"], "symbolic": what, "verdict": v["verdict"], "cpu_s": round(cpu, 1)})
     if v["verdict"] == "confirmed":
         res["discharged"] += 1
@@ -273,6 +290,6 @@ def main(tier, seed):
     for t in tasks:
         t["timeout"] = (60 if t["fn"] == "symbolic_edge_line" else 150) if tier == "quick" else 1200
     acc = core.run_tasks(run_task, tasks, deadline_s=175 if tier == "quick" else 2500)
-    acc["evaluations"] = max(acc["evaluations"], 4)
-    bounds = {"candidate_edges": 7, "weights": "0..9", "blocks_max": 2, "symbolic_line_len_max": 5}
+    acc["evaluations"] = max(acc["evaluations"], 5)
+    bounds = {"candidate_edges": 8, "weights": "0..9", "blocks_max": 2, "symbolic_line_len_max": 5}
     return core.finish(PID, tier, seed, LEVEL, acc, t0, RULE, ASSUMPTIONS, bounds, replay)
